@@ -4,7 +4,7 @@ From VF Require Import Lifecycle.Pool Lifecycle.PoolProofs Lifecycle.Fin Lifecyc
 Import ListNotations.
 
 Definition all_hpc (f : hpc -> bool) : bool :=
-  f HIdle && f H_chk && f H_chkF && f H_spawn && f H_setrun && f H_rel && f P_chk && f P_wait && f P_close
+  f HIdle && f H_chk && f H_chkF && f H_chkT && f H_spawnT && f H_spawn && f H_setrun && f H_rel && f P_chk && f P_wait && f P_close
   && f P_join && f P_clear && f P_reset && f P_rel.
 Lemma all_hpc_ok f : all_hpc f = true -> forall x, f x = true.
 Proof. unfold all_hpc. intros H x. repeat (apply andb_prop in H; destruct H as [H ?]). destruct x; assumption. Qed.
@@ -17,7 +17,7 @@ Definition all_hsk (f : hsk -> bool) : bool := f HSNone && f HSOpen && f HSClose
 Lemma all_hsk_ok f : all_hsk f = true -> forall x, f x = true.
 Proof. unfold all_hsk. intros H x. repeat (apply andb_prop in H; destruct H as [H ?]). destruct x; assumption. Qed.
 
-Definition all_hop (f : hop -> bool) : bool := f HStart && f HStop && f HStartF.
+Definition all_hop (f : hop -> bool) : bool := f HStart && f HStop && f HStartF && f HStartT.
 Lemma all_hop_ok f : all_hop f = true -> forall x, f x = true.
 Proof. unfold all_hop. intros H x. repeat (apply andb_prop in H; destruct H as [H ?]). destruct x; assumption. Qed.
 
@@ -58,7 +58,8 @@ Definition hlok (g : hglob) (me : bool) (p : hpc) : bool :=
   Bool.eqb me (hholder p) && implb me (lk_eqb (hlock g) LCaller) &&
   match p with
   | HIdle => true
-  | H_chk | H_chkF | P_chk => hcore g
+  | H_chk | H_chkF | H_chkT | P_chk => hcore g
+  | H_spawnT => negb (hrunning g) && negb (hmref g) && hmt_ended (hmt g) && hsock_open (hsock g) && negb (sreq g) && negb (isdown g)
   | H_spawn => negb (hrunning g) && negb (hmref g) && hmt_ended (hmt g) && hsock_open (hsock g) && negb (sreq g) && negb (isdown g)
   | H_setrun => negb (hrunning g) && hmref g && fresh_loop g
   | H_rel => hrunning_core g
@@ -74,15 +75,15 @@ Definition hact (p : hpc) : bool := false.
 Definition hactb (g : hglob) : bool := false.
 Definition hquiet (g : hglob) : bool := (HRunning g || HStopped g) && negb (lk_eqb (hlock g) LCaller).
 
-Lemma hO1 : chkO1 hglob hpc hop hlock (hcstep true) hgok hlok hact hactb all_hglob all_hpc all_hop = true.
+Lemma hO1 : chkO1 hglob hpc hop hlock (hcstep true true) hgok hlok hact hactb all_hglob all_hpc all_hop = true.
 Proof. vm_compute. reflexivity. Qed.
-Lemma hO2 : chkO2 hglob hpc hop (hcstep true) hgok hlok hact all_hglob all_hpc all_hop = true.
+Lemma hO2 : chkO2 hglob hpc hop (hcstep true true) hgok hlok hact all_hglob all_hpc all_hop = true.
 Proof. vm_compute. reflexivity. Qed.
 Lemma hO3 : chkO3 hglob hpc hlock hmstep hgok hlok hactb all_hglob all_hpc = true.
 Proof. vm_compute. reflexivity. Qed.
-Lemma hD1 : chkD1 hglob hpc hop hlock (hcstep true) hmstep his_idle hgok hlok all_hglob all_hpc all_hop = true.
+Lemma hD1 : chkD1 hglob hpc hop hlock (hcstep true true) hmstep his_idle hgok hlok all_hglob all_hpc all_hop = true.
 Proof. vm_compute. reflexivity. Qed.
-Lemma hD2 : chkD2 hglob hpc hop (hcstep true) hmstep hgok hlok all_hglob all_hpc all_hop = true.
+Lemma hD2 : chkD2 hglob hpc hop (hcstep true true) hmstep hgok hlok all_hglob all_hpc all_hop = true.
 Proof. vm_compute. reflexivity. Qed.
 Lemma hF1 : chkF1 hglob hpc his_idle hlok hact all_hglob all_hpc = true.
 Proof. vm_compute. reflexivity. Qed.
